@@ -5,4 +5,6 @@ pub mod lex;
 pub mod number;
 pub mod parse;
 pub mod syntax;
+#[cfg(marwood_verif)]
+pub mod verif_depth;
 pub mod vm;
